@@ -142,12 +142,14 @@ def run_check(pid, tier, seed, replay=None, budget_s=None):
     rng = core.SplitMix64(seed)
     deadline = None if budget_s is None else t0 + budget_s
 
-    def explore(scripts, tag):
-        for batch in batched(scripts, prop.BATCH):
+    def explore(scripts, tag, batch_size=None):
+        for batch in batched(scripts, batch_size or prop.BATCH):
+            if deadline is not None and time.time() > deadline:
+                break
             stats.add(core.run_scripts(batch, workdir, tag))
             if stats.spec_fail and len(stats.spec_fail) > 20:
                 break
-            if deadline is not None and time.time() > deadline:
+            if tag == "search" and stats.spec_fail:
                 break
 
     if impl_ok:
@@ -162,7 +164,7 @@ def run_check(pid, tier, seed, replay=None, budget_s=None):
         # wider search for a failing input (thorough-tier scopes), bounded in time
         log("[%s] obligation broken or correspondence disagreement: running the wider search" % pid)
         deadline = time.time() + prop.SEARCH_BUDGET_S
-        explore(prop.gen("thorough", rng.fork("search")), "search")
+        explore(prop.gen("thorough", rng.fork("search")), "search", max(1, prop.BATCH // 4))
 
     violations = 0
     out_lines = []
@@ -170,7 +172,7 @@ def run_check(pid, tier, seed, replay=None, budget_s=None):
     reported_classes = set()
     new_fail = None
     for r in stats.spec_fail:
-        s = core.shrink(r["script"], "spec", workdir) if len(r["script"].ops) > 1 else r["script"]
+        s = core.shrink(r["script"], "spec", workdir) if len(r["script"].ops) > 1 and not r["script"].meta.get("noshrink") else r["script"]
         rr = core.run_scripts([s], workdir, "final")[0]
         if core.first_problem(rr) is None:   # flaky shrink: fall back to the original
             s, rr = r["script"], r
@@ -194,7 +196,7 @@ def run_check(pid, tier, seed, replay=None, budget_s=None):
             detail.append("broken obligation: %s\n%s" % (o["name"], o["detail"]))
         if stats.disagree:
             r = stats.disagree[0]
-            s = core.shrink(r["script"], "disagree", workdir) if len(r["script"].ops) > 1 else r["script"]
+            s = core.shrink(r["script"], "disagree", workdir) if len(r["script"].ops) > 1 and not r["script"].meta.get("noshrink") else r["script"]
             rr = core.run_scripts([s], workdir, "final")[0]
             if core.first_problem(rr) is None:
                 s, rr = r["script"], r
